@@ -79,12 +79,12 @@ package node
 // AST well-formedness (class typing of the tree): expression slots hold expression nodes. wfAST is a
 // recursive predicate; each method states its one-level unfolding as a definitional assumption.
 // That the parser (and STRewrite) only build such trees is assumed (DESIGN.md section 6).
-//@ ghost wfAST(n Type) bool
-//@ pred isExpr(n Type) bool := dyntype(n) == typeid[Int]() || dyntype(n) == typeid[Float]() || dyntype(n) == typeid[String]() || dyntype(n) == typeid[Bool]()
+//@ ghost wfAST(n ByteCoder) bool
+//@ pred isExpr(n ByteCoder) bool := dyntype(n) == typeid[Int]() || dyntype(n) == typeid[Float]() || dyntype(n) == typeid[String]() || dyntype(n) == typeid[Bool]()
 //@     || dyntype(n) == typeid[List]() || dyntype(n) == typeid[Name]() || dyntype(n) == typeid[Local]() || dyntype(n) == typeid[Closure]() || dyntype(n) == typeid[Function]()
 //@     || dyntype(n) == typeid[Call]() || dyntype(n) == typeid[BinOp]() || dyntype(n) == typeid[UnOp]() || dyntype(n) == typeid[IndexAt]() || dyntype(n) == typeid[IndexFromTo]()
 //@     || dyntype(n) == typeid[Read]() || dyntype(n) == typeid[Write]() || dyntype(n) == typeid[Aton]() || dyntype(n) == typeid[Toa]() || dyntype(n) == typeid[Exit]()
-//@ pred exprOK(n Type) bool := isExpr(n) && wfAST(n)
+//@ pred exprOK(n ByteCoder) bool := isExpr(n) && wfAST(n)
 //@ type ByteCoder.byteCode [C05,C12]
 //@   params self, srcsel, fl, cr
 //@   requires[sel] 0 <= srcsel && srcsel <= 2
